@@ -93,7 +93,7 @@ var c03Sessions = []uint32{0, 1, 0x7fffffff, 0x80000000, 0xffffffff, 0x01020304}
 func runC03(b *mon.B) {
 	r := gen.New(uint64(b.Seed), 0xC03, uint64(b.Index))
 	srv := startLibServer()
-	srv.Net.KeepLog = false
+	srv.Net.SetKeepLog(false)
 	defer srv.Stop()
 	caseNo := 0
 	nConn := b.N(40, 700)
@@ -198,7 +198,7 @@ func runC03(b *mon.B) {
 		b.Eval(1)
 		b.Class("client/secret%s/body%s/%s/u%d/seq%d", lenBucket(len(secret)), bodyClass(reqLen), sizeClass(reqLen), fl&1, seq%2)
 		world := simnet.New()
-		world.KeepLog = false
+		world.SetKeepLog(false)
 		conn := world.NewConn(simnet.RemoteFor(k))
 		cl := tq.NewClientFromConn(conn, secret)
 		rh := rfc8907.Header{Major: 0xc, Minor: minor, Type: typ, Seq: seq%255 + 1, Flags: fl, Session: sid}
